@@ -68,6 +68,29 @@ def ordered_engine(ck, prop, tier, seed, work, ev, violations, known, knownhits)
         for f in (trace, scn): os.remove(f)
     os.remove(pred)
 
+# ------------------------------------------------------------------------------------------------ C01 / C12
+def protocol_engine(ck, prop, tier, seed, work, ev, violations, known, knownhits):
+    """WakerProtocol.tla: the wake-up protocol at atomic-operation grain (Vyukov queue in three steps, dequeue with stub
+    re-insertion and the Inconsistent answer, DiatomicWaker bit tables, two task wakers), all interleavings of the bound."""
+    cfgs = [('base', {}), ('budget1', {'Budget': 1})]
+    if tier == 'thorough':
+        cfgs += [('polls3', {'MaxPolls': 3}), ('push3', {'MaxPush': 3, 'MaxPolls': 2})]
+    base = open(os.path.join(ck.SPEC, 'MC_WakerProtocol.cfg')).read()
+    for name, over in cfgs:
+        txt = base
+        for k, v in over.items():
+            txt = re.sub(r' %s = \d+' % k, ' %s = %d' % (k, v), txt)
+        cfg = os.path.join(work, 'wp_%s.cfg' % name); open(cfg, 'w').write(txt)
+        t = time.time()
+        rc, out = ck.tlc(os.path.join(ck.SPEC, 'WakerProtocol.tla'), cfg, work, workers=8, timeout=2400, xmx='12g')
+        gen, dist = ck.parse_counts(out)
+        if 'No error has been found' not in out:
+            ck.log(out[-2000:]); raise ck.ToolError('WakerProtocol.tla (%s) failed' % name)
+        consts = dict(re.findall(r' (\w+) = (\d+)', txt))
+        ev['mc'].append({'name': 'WakerProtocol_' + name, 'module': 'WakerProtocol.tla', 'states': dist, 'transitions': gen, 'ok': True, 'violated': None,
+                         'expect': 'pass', 'wall_s': round(time.time() - t, 1), 'constants': consts})
+        ck.log('[%s] mc WakerProtocol %s: %d states, %.0fs' % (prop, name, dist, time.time() - t))
+
 # ------------------------------------------------------------------------------------------------ C03
 def refcount_engine(ck, prop, tier, seed, work, ev, violations, known, knownhits):
     """RefCount.tla with the atomic orderings extracted from the code (static binding), then the probe events of
